@@ -172,7 +172,9 @@ def execute(sc):
         e1 = [x[3] for x in r.err.log]
         e2 = [x[3] for x in r2.err.log]
         def reldiff(a, b_):
-            if a == b_:
+            if a == b_ or (math.isnan(a) and math.isnan(b_)):
+                # nan in both runs: the dynamically calibrated step with an exactly zero residual (KF-C01/C02/C03-dynamic-
+                # zero-residual) -- the same in both twins, hence no statement about scale invariance
                 return 0.0
             if not (math.isfinite(a) and math.isfinite(b_)) or a == 0 or b_ == 0:
                 return float("inf")
